@@ -9,7 +9,7 @@ COQ_DEPS = []
 PROFILES = ["debug"]
 CORR_IMPORT = "From Coq Require Import Floats.SpecFloat Uint63.\nFrom RlibV Require Import C18.Model C18.Corr.\nOpen Scope Z_scope.\nOpen Scope uint63_scope."
 CASE_TYPE = "case"
-AUDIT_IMPORT = ("From Coq Require Import ZArith Reals Bool Floats.SpecFloat.\n"
+AUDIT_IMPORT = ("From Coq Require Import ZArith Reals Bool List Floats.SpecFloat.\n"
                 "From Flocq Require Import Core.Zaux Core.Raux Core.Defs Core.Generic_fmt Core.FLT Core.Round_NE "
                 "IEEE754.BinarySingleNaN.\n"
                 "From RlibV Require Import C18.Model C18.Corr C18.Spec C18.Properties.\nOpen Scope Z_scope.")
@@ -51,7 +51,7 @@ THEOREMS = [
     ("c18_min_max_abs", "forall x y : spec_float, x <> S754_nan -> y <> S754_nan -> ((min80 x y = x \\/ min80 x y = y) /\\ SFleb (min80 x y) x = true /\\ SFleb (min80 x y) y = true) /\\ ((max80 x y = x \\/ max80 x y = y) /\\ SFleb x (max80 x y) = true /\\ SFleb y (max80 x y) = true) /\\ val (abs80 x) = Rabs (val x) /\\ abs80 x = match x with S754_zero _ => x | _ => SFabs x end"),
     ("c18_min_max_ties", "forall x y : spec_float, (SFcompare x y = Some Eq -> min80 x y = y /\\ max80 x y = x) /\\ (x = S754_nan \\/ y = S754_nan -> min80 x y = y /\\ max80 x y = x)"),
     ("c18_rne_ok_sound", "forall prec emax : Z, 1 < prec -> prec < emax -> forall (num den E : Z) (r : spec_float), 0 < num -> 0 < den -> rne_ok prec emax num den E r = true -> let rv := round radix2 (FLT_exp (3 - emax - prec) prec) ZnearestE (IZR num / IZR den * bpow radix2 E) in match r with | S754_finite _ m e => rv = F2R (Float radix2 (Zpos m) e) /\\ bounded prec emax m e = true | S754_zero _ => rv = 0%R | S754_infinity _ => (bpow radix2 emax <= rv)%R | S754_nan => False end"),
-    ("c18_spec_check_sound", "forall (op : opk) (a b : Z) (o : obs), spec_check (Case op a b o) = true -> let x := decode80 (o_wa o) in let y := decode80 (o_wb o) in (sel op OAdd = true -> valid80 x /\\ valid80 y /\\ decode80 (o_add o) = add80 x y /\\ decode64 (o_nadd o) = narrow (decode80 (o_add o))) /\\ (sel op OSub = true -> valid80 x /\\ valid80 y /\\ decode80 (o_sub o) = sub80 x y /\\ decode64 (o_nsub o) = narrow (decode80 (o_sub o))) /\\ (sel op OMul = true -> valid80 x /\\ valid80 y /\\ decode80 (o_mul o) = mul80 x y /\\ decode64 (o_nmul o) = narrow (decode80 (o_mul o))) /\\ (sel op ODiv = true -> valid80 x /\\ valid80 y /\\ decode80 (o_div o) = div80 x y /\\ decode64 (o_ndiv o) = narrow (decode80 (o_div o))) /\\ (sel op OChain = true -> valid80 x /\\ valid80 y /\\ valid80 (decode80 (o_mul o)) /\\ decode80 (o_mad o) = add80 (decode80 (o_mul o)) x /\\ decode80 (o_chain o) = div80 (decode80 (o_mad o)) y /\\ decode64 (o_nchain o) = narrow (decode80 (o_chain o)))"),
+    ("c18_spec_check_sound", "forall (op : opk) (a b : Z) (o : obs), spec_check (Case op a b o) = true -> let x := decode80 (o_wa o) in let y := decode80 (o_wb o) in (sel op OAdd = true -> valid80 x /\\ valid80 y /\\ decode80 (o_add o) = add80 x y /\\ decode64 (o_nadd o) = narrow (decode80 (o_add o))) /\\ (sel op OSub = true -> valid80 x /\\ valid80 y /\\ decode80 (o_sub o) = sub80 x y /\\ decode64 (o_nsub o) = narrow (decode80 (o_sub o))) /\\ (sel op OMul = true -> valid80 x /\\ valid80 y /\\ decode80 (o_mul o) = mul80 x y /\\ decode64 (o_nmul o) = narrow (decode80 (o_mul o))) /\\ (sel op ODiv = true -> valid80 x /\\ valid80 y /\\ decode80 (o_div o) = div80 x y /\\ decode64 (o_ndiv o) = narrow (decode80 (o_div o))) /\\ (sel op OChain = true -> valid80 x /\\ valid80 y /\\ valid80 (decode80 (o_mul o)) /\\ decode80 (o_mad o) = add80 (decode80 (o_mul o)) x /\\ decode80 (o_chain o) = div80 (decode80 (o_mad o)) y /\\ decode64 (o_nchain o) = narrow (decode80 (o_chain o))) /\\ (sel op OExt = true -> (forall (u v : raw) (r : relobs), In (u, v, r) (ext_pairs o) -> let X := decode80 u in let Y := decode80 v in valid80 X /\\ valid80 Y /\\ r_lt r = lt80 X Y /\\ r_le r = le80 X Y /\\ r_gt r = gt80 X Y /\\ r_ge r = ge80 X Y /\\ r_eq r = eq80 X Y /\\ r_pcmp r = pcmp_code (partial_cmp80 X Y) /\\ (X <> S754_nan -> Y <> S754_nan -> ((decode80 (r_min r) = X \\/ decode80 (r_min r) = Y) /\\ SFleb (decode80 (r_min r)) X = true /\\ SFleb (decode80 (r_min r)) Y = true) /\\ ((decode80 (r_max r) = X \\/ decode80 (r_max r) = Y) /\\ SFleb X (decode80 (r_max r)) = true /\\ SFleb Y (decode80 (r_max r)) = true))) /\\ (forall u t : raw, In (u, t) (ext_abs o) -> match decode80 u with | S754_nan => True | S754_zero _ => exists s : bool, decode80 t = S754_zero s | E => decode80 t = SFabs E end) /\\ decode64 (x_nmad (o_ext o)) = narrow (decode80 (o_mad o)) /\\ (forall (n : Z) (w : raw), In (n, w) (ext_widened o) -> decode80 w = widen (decode64 n)))"),
 ]
 # Driver limitation (checks/_driver.py parse_assumptions): the block of text after an "Axioms:" header runs up to
 # the next header and therefore contains the output of the NEXT `Check (name : statement).`, whose first line
@@ -66,19 +66,33 @@ RULE = ("boundary set x boundary set of binary64 bit patterns, exhaustively (sig
         "f64::MAX, +-inf, quiet/signalling/negative NaN), plus random bit patterns, pairs with nearby exponents "
         "(cancellation, carries), half-ulp offsets at 64 and 53 bits (ties), sparse significands; every pair runs "
         "+ - * / neg, the chain (x*y+x)/y (intermediates need all 64 significand bits), f64->f80->f64, f80->f64 of "
-        "each result, < <= > >= == partial_cmp min max abs; non-trivial = both operands finite, non-zero, different")
+        "each result, < <= > >= == partial_cmp min max abs on (x, y); and the same relations, min, max, abs on "
+        "EXTENDED-FORMAT operands that are not images of binary64 values: e in {x*y+x, x*y, x/y, x+y} against "
+        "n_e = f80(f64(e)) in both orders (equal, one 64-bit ulp apart, +-inf when e is beyond the binary64 range, "
+        "+-0 when below it) and the pairs (x*y+x, x*y), (x*y, x+y), (x+y, x/y); dedicated random categories: e and "
+        "n_e one 64-bit ulp apart (sums a +- 2^(E-63), products (1+f 2^-52)(1+2^-11)), products/quotients outside "
+        "the binary64 exponent range, x*y+x against x*y with |y| >= 2^52; corpus witnesses 1e17+1, f64::MAX*16, "
+        "f64::MAX^2, MIN_POSITIVE^2, 2^-1076, 1+2^-63, 1-2^-64, 1/3 (coverage counters ext_* in the evidence); "
+        "non-trivial = both operands finite, non-zero, different")
 TRUSTED = ["executor harness/crates/c18 (calls rlib_f80 operators/methods, prints the 10 raw bytes of each result "
-           "as (sign/exponent word, significand word) and f64 results as bit patterns)",
-           "checks/c18.py (case generator, Coq term printer)",
+           "as (sign/exponent word, significand word), f64 results as bit patterns, the six relations of a pair of "
+           "extended operands as one code lt+2le+4gt+8ge+16eq+32partial_cmp)",
+           "checks/c18.py (case generator, Coq term printer; in the extended-operand group a raw that repeats an "
+           "operand raw word for word is printed as a back-reference, resolved by Corr.v's OBS/pick)",
            "x87 instructions are modelled, not verified: IEEE semantics at (prec 64, emax 16384), control word "
            "0x37F (extended precision, round to nearest even); the batch lemmas compare the hardware's raw results "
            "with the model bit for bit on every run"]
-ASSUMPTIONS = ["operands are images of binary64 values (as in the property); NaN payloads are not modelled: NaNs are "
-               "compared as a class (x87 quiets signalling NaNs on load)",
+ASSUMPTIONS = ["operands of the arithmetic are images of binary64 values (as in the property) or, in the chain and in "
+               "the relations on extended operands, results of one or two operations on such images; NaN payloads "
+               "are not modelled: NaNs are compared as a class (x87 quiets signalling NaNs on load)",
                "theorems are about the spec_float model; correspondence with the inline assembly is sampled"]
 
 OPS = {"all": "OAll", "add": "OAdd", "sub": "OSub", "mul": "OMul", "div": "ODiv", "neg": "ONeg", "chain": "OChain",
-       "conv": "OConv", "rel": "ORel", "minmax": "OMinMax", "abs": "OAbs"}
+       "conv": "OConv", "rel": "ORel", "minmax": "OMinMax", "abs": "OAbs", "ext": "OExt"}
+# layout of one observation line (harness/crates/c18/src/main.rs)
+N_TOK = 108            # 36 tokens of the f64-image groups + 72 of the extended-operand group
+EXT0 = 36              # bits(f64(m)); 4 raws n_m n_p n_q n_s; 11 x (code, raw min, raw max); 4 raws abs
+N_REL = 11
 M64 = (1 << 64) - 1
 SIGN = 1 << 63
 
@@ -101,21 +115,108 @@ def r(se, m):
     return "(RW %s %d %d)" % (se, m >> 32, m & 0xFFFFFFFF)
 
 
+def rsel(t, k, u, v):
+    """the raw at tokens k, k+1 as a back-reference to the operand raw at u / at v when it is the very same two
+    words, in full otherwise (Corr.v: rsel / pick)"""
+    if t[k] == t[u] and t[k + 1] == t[u + 1]:
+        return "SU"
+    if t[k] == t[v] and t[k + 1] == t[v + 1]:
+        return "SV"
+    m = int(t[k + 1])
+    return "(SR %s %d %d)" % (t[k], m >> 32, m & 0xFFFFFFFF)
+
+
+# token positions of the raws of m = x*y+x, p = x*y, q = x/y, s = x+y and of n_m n_p n_q n_s
+T_M, T_P, T_Q, T_S = 14, 8, 10, 4
+T_N = {T_M: 37, T_P: 39, T_Q: 41, T_S: 43}
+
+
+def ext_term(t):
+    """the group OExt: tokens EXT0.. of the observation line, as the trailing arguments of Corr.v's OBS"""
+    out = [w(t[EXT0])]
+    es = (T_M, T_P, T_Q, T_S)
+    out += [rsel(t, T_N[e], e, e) for e in es]
+    pairs = []
+    for e in es:
+        pairs += [(e, T_N[e]), (T_N[e], e)]
+    pairs += [(T_M, T_P), (T_P, T_S), (T_S, T_Q)]
+    k = EXT0 + 9
+    for (u, v) in pairs:
+        out.append("(RL %s %s %s)" % (t[k], rsel(t, k + 1, u, v), rsel(t, k + 3, u, v)))
+        k += 5
+    out += [rsel(t, k + 2 * i, e, e) for i, e in enumerate(es)]
+    return " ".join(out)
+
+
 def coq_term(c, obs, profile):
     a, b = int(c["a"], 16), int(c["b"], 16)
-    if obs == "P":
+    t = obs.split()
+    if obs == "P" or len(t) != N_TOK:
         # no operation of the crate panics; make the case fail both checks
         bad = "(RW 0 0 1)"
-        return "(Case %s %s %s (mkObs %s 1 1 1 1 1 1 true true true true true 9 %s))" % (
-            OPS[c["op"]], w(a), w(b), " ".join([bad] * 9), " ".join([bad] * 3))
-    t = obs.split()
+        return "(Case %s %s %s (OBS %s 1 1 1 1 1 1 true true true true true 9 %s 1 %s %s %s))" % (
+            OPS[c["op"]], w(a), w(b), " ".join([bad] * 9), " ".join([bad] * 3),
+            " ".join(["SU"] * 4), " ".join(["(RL 0 SU SU)"] * N_REL), " ".join(["SU"] * 4))
     raws = [r(t[2 * i], t[2 * i + 1]) for i in range(9)]
     f64s = [w(v) for v in t[18:24]]
     bools = ["true" if v == "1" else "false" for v in t[24:29]]
     pc = t[29]
     tail = [r(t[30 + 2 * i], t[31 + 2 * i]) for i in range(3)]
-    return "(Case %s %s %s (mkObs %s %s %s %s %s))" % (
-        OPS[c["op"]], w(a), w(b), " ".join(raws), " ".join(f64s), " ".join(bools), pc, " ".join(tail))
+    return "(Case %s %s %s (OBS %s %s %s %s %s %s))" % (
+        OPS[c["op"]], w(a), w(b), " ".join(raws), " ".join(f64s), " ".join(bools), pc, " ".join(tail), ext_term(t))
+
+
+def raw_class(se, m):
+    se, m = int(se), int(m)
+    e = se & 0x7FFF
+    if e == 0x7FFF:
+        return "inf" if m == 1 << 63 else "nan"
+    return "zero" if m == 0 else "fin"
+
+
+def ext_coverage(obs_lines):
+    """how meaningful the group OExt is on these observation lines: over all (case, e in {m, p, q, s})"""
+    cov = {"ext_values": 0, "ext_e_differs_from_n_e": 0, "ext_e_beyond_f64_range_n_e_inf": 0,
+           "ext_e_below_f64_range_n_e_zero": 0, "ext_e_n_e_one_64bit_ulp_apart": 0,
+           "ext_n_e_binary64_subnormal": 0, "ext_cases_with_a_differing_pair": 0,
+           "ext_unrelated_pairs_ordered_but_equal_through_f64": 0}
+    for line in obs_lines:
+        t = line.split()
+        if len(t) != N_TOK:
+            continue
+        any_diff = False
+        for e in (T_M, T_P, T_Q, T_S):
+            n = T_N[e]
+            ce, cn = raw_class(t[e], t[e + 1]), raw_class(t[n], t[n + 1])
+            if ce == "nan":
+                continue
+            cov["ext_values"] += 1
+            if (t[e], t[e + 1]) == (t[n], t[n + 1]):
+                continue
+            any_diff = True
+            cov["ext_e_differs_from_n_e"] += 1
+            if ce == "fin" and cn == "inf":
+                cov["ext_e_beyond_f64_range_n_e_inf"] += 1
+            elif ce == "fin" and cn == "zero":
+                cov["ext_e_below_f64_range_n_e_zero"] += 1
+            elif ce == "fin" and cn == "fin":
+                ve = ((int(t[e]) & 0x7FFF) << 64) + int(t[e + 1])      # monotone in the magnitude
+                vn = ((int(t[n]) & 0x7FFF) << 64) + int(t[n + 1])
+                if abs(ve - vn) == 1:
+                    cov["ext_e_n_e_one_64bit_ulp_apart"] += 1
+                if (int(t[n]) & 0x7FFF) < 16383 - 1022:
+                    cov["ext_n_e_binary64_subnormal"] += 1
+        cov["ext_cases_with_a_differing_pair"] += any_diff
+        # the three pairs of unrelated extended values: ordered (code says < or >) although their binary64
+        # roundings coincide
+        k = EXT0 + 9 + 5 * 8
+        f64_of = {T_M: EXT0, T_P: 21, T_Q: 22, T_S: 19}
+        for (u, v) in ((T_M, T_P), (T_P, T_S), (T_S, T_Q)):
+            code = int(t[k])
+            k += 5
+            if (code >> 5) in (1, 3) and t[f64_of[u]] == t[f64_of[v]]:
+                cov["ext_unrelated_pairs_ordered_but_equal_through_f64"] += 1
+    return cov
 
 
 def fclass(h):
@@ -223,7 +324,44 @@ def from_int(n, shift, s=0):
 
 
 def random_pair(rng):
-    k = rng.below(12)
+    k = rng.below(15)
+    if k == 12:                                 # e and n_e = f80(f64(e)) one 64-bit ulp apart
+        if rng.chance(1, 2):
+            # sum: a +- 2^(E-63) (+- 3*2^(E-65): rounds to the same last bit): a 64-bit significand whose low 11
+            # bits are 0..01 resp. 1..11, so that the binary64 rounding is a itself
+            e = rng.range(70, 2046)
+            a = mk(e, rng.next() if rng.chance(1, 2) else sparse(rng), rng.below(2))
+            b = mk(e - 63, 0, rng.below(2)) if rng.chance(2, 3) else mk(e - 65, 1 << 51, rng.below(2))
+            return (a, b) if rng.chance(1, 2) else (b, a)
+        # product (1 + f 2^-52)(1 + 2^-11) with the low 11 bits of f equal to 0..01 / 1..11: exact with 64 bits
+        f = (rng.next() & ((1 << 52) - 1) & ~0x7FF) | rng.choice([1, 0x7FF])
+        a = mk(rng.range(100, 1900), f, rng.below(2))
+        b = mk(rng.range(900, 1100), 1 << 41, rng.below(2))
+        return (a, b) if rng.chance(1, 2) else (b, a)
+    if k == 13:                                 # products / quotients outside the binary64 exponent range but
+        big = rng.chance(1, 2)                  # finite and non-zero in the extended format
+        fa = rng.next() if rng.chance(2, 3) else sparse(rng)
+        fb = rng.next() if rng.chance(2, 3) else sparse(rng)
+        if rng.chance(1, 2):                    # product: unbiased exponents add up to >= 1024 resp. <= -1080
+            if big:
+                ea = rng.range(1030, 2046)
+                eb = rng.range(3070 - ea, 2046)
+            else:
+                ea = rng.range(0, 966)
+                eb = rng.range(0, 966 - ea)
+        else:                                   # quotient: exponents differ by >= 1025 resp. <= -1080
+            if big:
+                ea = rng.range(1026, 2046)
+                eb = rng.range(0, ea - 1025)
+            else:
+                ea = rng.range(0, 966)
+                eb = rng.range(ea + 1080, 2046)
+        return mk(ea, fa, rng.below(2)), mk(eb, fb, rng.below(2))
+    if k == 14:                                 # x*y + x against x*y: |y| large, so that x only moves the last
+        ea = rng.range(200, 1800)               # bits of the product (or is absorbed entirely)
+        eb = 1023 + rng.choice([52, 53, 54, 60, 62, 63, 64, 65, 66])
+        return (mk(ea, rng.next(), rng.below(2)),
+                mk(eb, rng.next() if rng.chance(1, 2) else sparse(rng), rng.below(2)))
     if k == 10:                                 # odd k-bit x odd l-bit: the exact product has k+l-1 or k+l bits and is
         total = rng.choice([54, 55, 65, 66, 64, 53])   # odd: exact ties at 64 bits (f80) resp. 53 bits (narrowing)
         kk = rng.range(max(2, total - 53), min(53, total - 2))
@@ -335,6 +473,8 @@ def extra(ctx, known):
     rel = _driver.run_impl(binp, lines)
     diff = [i for i in range(len(lines)) if not same_obs(dbg[i], rel[i])]
     cov["release_vs_debug_cases"] = len(lines)
+    # how meaningful the relations on extended-format operands were on this run (debug observations)
+    cov.update(ext_coverage(dbg))
     cov["release_vs_debug_differences"] = len(diff)
     if diff:
         i = diff[0]
@@ -345,27 +485,37 @@ def extra(ctx, known):
     return {"coverage": cov, "violations": viol, "known": []}
 
 
+RAW_AT = set(list(range(0, 18, 2)) + [30, 32, 34] + list(range(EXT0 + 1, EXT0 + 9, 2))
+             + [EXT0 + 9 + 5 * i + j for i in range(N_REL) for j in (1, 3)]
+             + list(range(EXT0 + 9 + 5 * N_REL, N_TOK, 2)))
+F64_AT = set(list(range(18, 24)) + [EXT0])
+
+
+def raw_is_nan(se, m):
+    return (int(se) & 0x7FFF) == 0x7FFF and int(m) != 1 << 63
+
+
+def bits_is_nan(v):
+    v = int(v)
+    return (v >> 52) & 0x7FF == 0x7FF and v & ((1 << 52) - 1) != 0
+
+
 def same_obs(x, y):
     """equal token by token; two NaN raws / NaN bit patterns count as equal"""
     if x == y:
         return True
     tx, ty = x.split(), y.split()
-    if len(tx) != len(ty) or len(tx) != 36:
+    if len(tx) != len(ty) or len(tx) != N_TOK:
         return False
-    raw_at = list(range(0, 18, 2)) + [30, 32, 34]
     i = 0
-    while i < 36:
-        if i in raw_at:
-            nx = (int(tx[i]) & 0x7FFF) == 0x7FFF and int(tx[i + 1]) != 1 << 63
-            ny = (int(ty[i]) & 0x7FFF) == 0x7FFF and int(ty[i + 1]) != 1 << 63
+    while i < N_TOK:
+        if i in RAW_AT:
+            nx, ny = raw_is_nan(tx[i], tx[i + 1]), raw_is_nan(ty[i], ty[i + 1])
             if not ((nx and ny) or (tx[i] == ty[i] and tx[i + 1] == ty[i + 1])):
                 return False
             i += 2
-        elif 18 <= i < 24:
-            vx, vy = int(tx[i]), int(ty[i])
-            nx = (vx >> 52) & 0x7FF == 0x7FF and vx & ((1 << 52) - 1) != 0
-            ny = (vy >> 52) & 0x7FF == 0x7FF and vy & ((1 << 52) - 1) != 0
-            if not ((nx and ny) or vx == vy):
+        elif i in F64_AT:
+            if not ((bits_is_nan(tx[i]) and bits_is_nan(ty[i])) or int(tx[i]) == int(ty[i])):
                 return False
             i += 1
         else:
@@ -391,7 +541,11 @@ MANIFEST = {
             "to the inline assembly on every run: raw results of + - * / neg, an operation chain, all conversions, all "
             "relations, min/max/abs on boundary x boundary binary64 patterns plus random pairs are compared with the "
             "model and, independently, with exact integer/rational arithmetic (nearest-even check against both "
-            "neighbours).",
+            "neighbours). The relations, min, max, abs are observed both on images of binary64 values and on "
+            "genuinely extended-format operands (x*y+x, x*y, x/y, x+y against their own roundings through binary64 and "
+            "against each other: values one 64-bit ulp apart, beyond / below the binary64 range); on those the "
+            "specification side compares the observed booleans with the exact order of the OBSERVED raw operands, and "
+            "c18_spec_check_sound states that an accepted observation is the model's relation on them.",
     "level_note": "Trusted: Coq kernel + vm_compute, classical-real axioms of the standard library (through Flocq), "
                   "the Rust executor and the Python case printer; x87 semantics are assumed to be the IEEE semantics "
                   "of the model (checked bit for bit on every sampled input, not proved).",
